@@ -16,7 +16,11 @@
 
 #define GLM_ENABLE_EXPERIMENTAL
 #include <glm/glm.hpp>
+#ifndef VH_NO_EXT_ALL
 #include <glm/ext.hpp>
+#else
+#include <glm/gtc/quaternion.hpp>
+#endif
 
 namespace vh {
 
